@@ -216,6 +216,64 @@ def make(only):
     return fn
 
 
+def scale_fn(g):
+    """An archive of 10 versions (5 tasks x 2) - more than any worker or batch count."""
+    corruption = ("none", "ninth-directory-removed", "tenth-version-already-recorded")[g.choose("corruption", 3)]
+    specs = [TaskSpec("e%d" % i, "run_experiment", [], pkg=("", "p", "p/q")[i % 3]) for i in range(5)]
+    rows = [(s_.ident, 100 * (v + 1) + i) for v in range(2) for i, s_ in enumerate(specs)]
+    src = hrun.Project()
+    proj = hrun.Project()
+    work = tempfile.mkdtemp(prefix="verif-arch-", dir=hrun.SCRATCH_BASE)
+    try:
+        for P in (src, proj):
+            P.write_tasks(specs)
+        for ident, ts in rows:
+            fill(src.add_version(ident, ts, files={}), "S %s %d" % (ident, ts))
+        arch = os.path.join(work, "a.tar.gz")
+        r = hrun.invoke_argv(["archive", "-o", arch], str(src.root), fakeos.Kernel(fakeos.Sched()))
+        assert r.status == 0, (r.status, r.err)
+        if corruption == "ninth-directory-removed":
+            x = os.path.join(work, "x")
+            os.mkdir(x)
+            subprocess.run(["tar", "xzf", arch, "-C", x], check=True)
+            ident, ts = rows[8]
+            pkg, nm = ident[2:].rsplit(":", 1)
+            shutil.rmtree(os.path.join(x, pkg, "%s.task.%d" % (nm, ts)))
+            os.unlink(arch)
+            subprocess.run(["tar", "czf", arch, "-C", x] + sorted(os.listdir(x)), check=True)
+        fill(proj.add_version("//:e0", 7, files={}), "prior")
+        if corruption == "tenth-version-already-recorded":
+            fill(proj.add_version(rows[9][0], rows[9][1], files={}), "prior same id")
+        before = proj.index_rows()
+        before_dig = hrun.tree_digest(proj.out, exclude=("version_index.sqlite",))
+        res = hrun.invoke_argv(["restore", arch], str(proj.root), fakeos.Kernel(fakeos.Sched()), timeout=120)
+        D = "archive of 10 versions, corruption=%s" % corruption
+        if isinstance(res.status, str) and corruption == "none":
+            g.require(False, "restore:crash:" + res.status[4:], "%s; %s" % (res.exc, D))
+        after = proj.index_rows()
+        if corruption == "none":
+            g.require(res.status == 0, "restore:failed", "status=%r err=%r; %s" % (res.status, res.err[-200:], D))
+            g.require(sorted((r_[0], r_[1]) for r_ in after) == sorted(set((r_[0], r_[1]) for r_ in before) | set(rows)), "restore:success-but-wrong-rows",
+                      "%d rows after the restore; %s" % (len(after), D))
+            for ident, ts in rows:
+                pkg, nm = ident[2:].rsplit(":", 1)
+                rel = os.path.join(pkg, "%s.task.%d" % (nm, ts))
+                g.require(hrun.tree_digest(proj.out / rel) == hrun.tree_digest(src.out / rel) and (proj.out / rel).is_dir(), "restore:recorded-but-directory-wrong",
+                          "%s missing or different; %s" % (rel, D))
+        else:
+            g.require(res.status != 0, "restore:reported-success-for-" + corruption, "restore exited 0; %s" % D)
+            g.require(after == before, "restore:partial-restore-recorded:" + corruption, "rows changed: %d -> %d; %s" % (len(before), len(after), D))
+            now = hrun.tree_digest(proj.out, exclude=("version_index.sqlite",))
+            changed = sorted(k for k in before_dig if now.get(k) != before_dig[k])
+            g.require(not changed, "restore:existing-version-modified", "%s; %s" % (changed[:4], D))
+        g.goal("archive of ten versions")
+        return {"nontrivial": corruption != "none", "sample": {"case": D, "status": res.status}}
+    finally:
+        src.cleanup()
+        proj.cleanup()
+        shutil.rmtree(work, ignore_errors=True)
+
+
 _WARM = [False]
 
 
@@ -243,6 +301,8 @@ def spaces(tier):
                 "prior state {empty, other versions} x stale staging bit x 7 corruption kinds x (no kill | kill at every executed "
                 "line of cli/restore.py and execution/version_index.py)", depth="marker", goals=goals, tiers=("quick",),
                 outside=["power loss / fsync", "two corruptions at once", "concurrent invocations"])]
+    sp.append(Space("scale-ten-versions", scale_fn, "an archive of 10 versions of 5 tasks in 3 packages; intact, ninth directory missing, tenth "
+                    "version already recorded", depth=2, goals=["archive of ten versions"]))
     if tier == "thorough":
         sp.append(Space("restore-faults-all-lines", make(None),
                         "same, kill at every executed line of conductor.*", depth="marker", goals=goals, tiers=("thorough",)))
